@@ -21,7 +21,7 @@ theorem chunk_invariant (u : InputUse) (h : wfLeafUse u = true) (f : MinFn) (chu
   simp [minifyVia, h, readAll]
 
 /-- two chunkings of the same bytes give the same result -/
-theorem chunk_invariant' (u : InputUse) (h : wfLeafUse u = true) (f : MinFn) (c₁ c₂ : List Bytes)
+theorem chunk_invariant_same (u : InputUse) (h : wfLeafUse u = true) (f : MinFn) (c₁ c₂ : List Bytes)
     (heq : c₁.flatten = c₂.flatten) : minifyVia u.uses f c₁ = minifyVia u.uses f c₂ := by
   rw [chunk_invariant u h, chunk_invariant u h, heq]
 
@@ -254,15 +254,21 @@ theorem middleware_mediatype (sk : WSkel) (hwf : wfRespWriter sk = true) (ct ext
 
 /-- **bytes_same**: `m.Bytes` / `m.String` return the plain call's output on success and the
     unchanged input together with the plain call's error otherwise -/
+theorem bytesVia_of_wf (prog : List WAtom) (h : wfBytesProg prog = true) (mf : Option MinFn) (v : Bytes) :
+    bytesVia prog mf v = some (match (plain mf v).2 with | none => ((plain mf v).1, none) | some e => (v, some e)) := by
+  unfold wfBytesProg at h
+  split at h
+  · simp only [bytesVia]
+    cases hp : plain mf v with
+    | mk out e => cases e <;> simp
+  · cases h
+
 theorem bytes_same (sk : WSkel) (hwf : wfBytes sk = true) (mf : Option MinFn) (v : Bytes) :
     bytesVia sk.bytes mf v = some (match (plain mf v).2 with | none => ((plain mf v).1, none) | some e => (v, some e)) ∧
     bytesVia sk.string mf v = bytesVia sk.bytes mf v := by
-  simp only [wfBytes, Bool.and_eq_true, decide_eq_true_eq] at hwf
-  rw [hwf.1, hwf.2]
-  refine ⟨?_, rfl⟩
-  simp only [bytesVia]
-  cases h : plain mf v with
-  | mk out e => cases e <;> simp
+  simp only [wfBytes, Bool.and_eq_true] at hwf
+  rw [bytesVia_of_wf _ hwf.1, bytesVia_of_wf _ hwf.2]
+  exact ⟨rfl, rfl⟩
 
 /-! ### the `Reader` system -/
 
